@@ -66,6 +66,18 @@ mod types {
         pub c: Vec<DeduplicatedString>,
     }
 
+    /// deduplicated strings inside a record whose header carries removed-field names (the names are
+    /// deduplicated strings of the same stream)
+    #[derive(BinaryCodec)]
+    #[evolution(FieldRemoved("legacy"), FieldAdded("third", DeduplicatedString(String::new())), FieldRemoved("older"), FieldMadeTransient("cache"))]
+    pub struct Tagged {
+        pub first: DeduplicatedString,
+        pub second: DeduplicatedString,
+        pub third: DeduplicatedString,
+        #[transient(0u8)]
+        pub cache: u8,
+    }
+
     /// a client codec that fails after having written its payload
     pub struct Fragile {
         pub text: String,
@@ -196,7 +208,22 @@ fn plain(k: u8) -> Plain {
     }
 }
 
-pub const NSPECS: usize = 34;
+fn tagged(k: usize) -> Tagged {
+    let d = |s: &str| DeduplicatedString(s.to_string());
+    match k % 3 {
+        0 => Tagged { first: d("tag"), second: d("tag"), third: d("legacy"), cache: 1 },
+        1 => Tagged { first: d("older"), second: d("cache"), third: d("older"), cache: 2 },
+        _ => Tagged { first: d("x"), second: d("legacy"), third: d("x"), cache: 3 },
+    }
+}
+fn tagged_result(r: desert::Result<Tagged>) -> String {
+    match r {
+        Ok(t) => format!("ok:{} {} {} {}", t.first.0, t.second.0, t.third.0, t.cache),
+        Err(e) => format!("err:{e:?}"),
+    }
+}
+
+pub const NSPECS: usize = 40;
 
 /// performs call spec `i` and renders its result
 pub fn call(i: usize) -> String {
@@ -234,6 +261,9 @@ pub fn call(i: usize) -> String {
             let b = Rc::new("other".to_string());
             enc(&SharedPair(a.clone(), b, a), i)
         }
+        // deduplicated strings next to removed-field names of the header
+        34..=36 => enc(&tagged(i), i),
+        37..=39 => tagged_result(desert::serialize_to_byte_vec(&tagged(i)).and_then(|b| desert::deserialize::<Tagged>(&b))),
         _ => panic!("no call spec {i}"),
     }
 }
